@@ -26,7 +26,7 @@ func init() {
 			"R3: every class variable is initialised from a distinct foreign variable or by fmt.Errorf/errors.New with a constant format that contains no %w, so the classes are pairwise independent values. " +
 			"R4: GRPCWrap passes err.Error() of its parameter as the status message, returns an already coded error unchanged, and obtains the code from GRPCStatusCode; EmbedObject and ExtractObject share one marker constant, the former emits it twice around the payload and wraps the error with %w, the latter expects exactly three parts. " +
 			"R5: Is consults errors.Is(err,target) and errors.Is(FromGRPCError(err),target). " +
-			"R6: GRPCStatusCode falls back, for an uncoded error, to a range over the class->code table testing errors.Is(err, class) and returns that entry's code; FromGRPCError indexes the code->class table with status.Code(err).",
+			"R6: GRPCStatusCode falls back, for an uncoded error, to a range over the class->code table testing errors.Is(err, class) and returns that entry's code; FromGRPCError indexes the code->class table with status.Code(err). R7: no map keyed by error is indexed with an error passed in by the caller (an unhashable dynamic type would panic).",
 		NotDecided: "the behaviour of fmt, errors, encoding/json and grpc status (trusted); message texts that themselves contain the marker.",
 		Trusted:    []string{"fmt.Errorf(\"%w\") / errors.Is chain semantics", "google.golang.org/grpc/status.Code, status.Error, codes constants"},
 	})
@@ -597,6 +597,42 @@ func (c *Ctx) classIndependence(t *c19tables, classes []*types.Var, fallback *ty
 		}
 	}
 	c.R.Floor("C19.R3", 10)
+
+	// R7: no caller-supplied error is used as a map key. The class->code table is a map[error]Code; indexing it with an
+	// arbitrary error value hashes the value's dynamic type, and for an unhashable one (an error type that is a slice,
+	// a map, or a struct holding one - validation error lists are of this shape) the runtime panics, although the
+	// wrapped class is perfectly reachable through errors.Is. Exported functions taking an error index such a map only
+	// with package-level class variables (range keys, literals), never with a parameter.
+	nIdx := 0
+	for _, fn := range c.P.FuncsOf("errors") {
+		ir.Instrs(fn, func(in ssa.Instruction) {
+			var m, key ssa.Value
+			switch x := in.(type) {
+			case *ssa.Lookup:
+				m, key = x.X, x.Index
+			case *ssa.MapUpdate:
+				m, key = x.Map, x.Key
+			default:
+				return
+			}
+			mt, ok := m.Type().Underlying().(*types.Map)
+			if !ok || !ir.IsErrorType(mt.Key()) {
+				return
+			}
+			nIdx++
+			fromParam := false
+			for _, o := range ir.Origins(key) {
+				if _, isP := o.(*ssa.Parameter); isP {
+					fromParam = true
+				}
+			}
+			c.Decide("C19.R7", fn, "error-keyed table is not indexed with a caller-supplied error", in, !fromParam,
+				"a map keyed by error is indexed with the error passed in by the caller: an error value of an unhashable dynamic type (slice / map / struct with a slice) makes the runtime panic in GRPCWrap / GRPCStatusCode although its class is reachable through errors.Is")
+		})
+	}
+	if nIdx == 0 {
+		c.Decide("C19.R7", nil, "error-keyed tables are only ranged over", nil, true, "")
+	}
 }
 
 func calleeObjAST(pk *packages.Package, call *ast.CallExpr) *types.Func {
